@@ -69,43 +69,117 @@ Qed.
 Lemma finite_of_Fin qs : finite_of (map Fin qs) = qs.
 Proof. induction qs as [|q t IH]; cbn; [reflexivity | now rewrite IH]. Qed.
 
+Lemma mirror_x_Fin b qs : map (mirror_x b) (map Fin qs) = map Fin (map (mirror b) qs).
+Proof. rewrite !map_map. reflexivity. Qed.
+
 Lemma s2v_none ah : series2value ah [] = XNaN.
+Proof. destruct ah; reflexivity. Qed.
+
+Lemma median_value_single x : median_value [x] = x.
 Proof. reflexivity. Qed.
 
-Lemma s2v_single ah x : series2value ah [x] = x.
-Proof. reflexivity. Qed.
+(* np.nanmedian through series2value: the median, also of a single value *)
+Lemma summary_Fin qs : qs <> [] -> summary (map Fin qs) = Fin (median_value qs).
+Proof.
+  intros Hne. destruct qs as [|a [|b t]]; [congruence | reflexivity |].
+  change (map Fin (a :: b :: t)) with (Fin a :: Fin b :: map Fin t).
+  unfold summary.
+  change (Fin a :: Fin b :: map Fin t) with (map Fin (a :: b :: t)).
+  rewrite finite_of_Fin, median_spec; [reflexivity | discriminate].
+Qed.
 
-Lemma s2v_many ah qs :
+(* an explicit side: EVERY hit is mirrored to it before the median, a single one too *)
+Lemma s2v_side b qs :
+  qs <> [] -> series2value (Some b) (map Fin qs) = Fin (median_value (map (mirror b) qs)).
+Proof.
+  intros Hne. unfold series2value. rewrite mirror_x_Fin. apply summary_Fin.
+  destruct qs; [congruence | discriminate].
+Qed.
+
+Lemma s2v_majority_many qs :
   (2 <= length qs)%nat ->
-  series2value ah (map Fin qs) = Fin (median_value (map (mirror (direction ah qs)) qs)).
+  series2value None (map Fin qs) = Fin (median_value (map (mirror (direction None qs)) qs)).
 Proof.
   intros Hl. destruct qs as [|a [|b t]]; cbn [length] in Hl; try lia.
   change (map Fin (a :: b :: t)) with (Fin a :: Fin b :: map Fin t).
-  unfold series2value.
+  unfold series2value, summary_majority.
   change (Fin a :: Fin b :: map Fin t) with (map Fin (a :: b :: t)).
   rewrite finite_of_Fin.
   rewrite median_spec; [reflexivity | discriminate].
 Qed.
 
-(* C18_baf: two or more hits *)
-Lemma baf_many ah qs :
-  (2 <= length qs)%nat ->
+Lemma s2v_majority_single x : series2value None [Fin x] = Fin x.
+Proof. reflexivity. Qed.
+
+(* direction when unspecified: that of the majority, i.e. median > 1/2 *)
+Lemma direction_none qs : qs <> [] -> direction None qs = Qlt_bool (1 # 2) (median_value qs).
+Proof.
+  intros Hne. unfold direction, majority_above. rewrite median_spec by exact Hne. reflexivity.
+Qed.
+
+(* a single value mirrored in the direction of its own "majority" is itself *)
+Lemma mirror_single_majority x : mirror (direction None [x]) x == x.
+Proof.
+  rewrite direction_none by discriminate. rewrite median_value_single.
+  destruct (Qlt_bool (1 # 2) x) eqn:E.
+  - apply Qlt_bool_iff in E. apply mirror_fix_above. lra.
+  - apply Qlt_bool_false in E. apply mirror_fix_below, E.
+Qed.
+
+Lemma baf_single_majority x :
+  series2value None [Fin x] = Fin x /\ mirror (direction None [x]) x == x.
+Proof. split; [reflexivity | apply mirror_single_majority]. Qed.
+
+Lemma is_median_eq m m' l : m == m' -> is_median m' l -> is_median m l.
+Proof.
+  intros E (s & Hp & Hs & Ho & He). exists s. split; [exact Hp|]. split; [exact Hs|].
+  cbv zeta in *. split; intros H; rewrite E; [apply Ho | apply He]; exact H.
+Qed.
+
+(* what series2value returns on one or more finite hits, as a number *)
+Definition baf_value (ah : option bool) (qs : list Q) : Q :=
+  match ah, qs with
+  | None, [x] => x
+  | _, _ => median_value (map (mirror (direction ah qs)) qs)
+  end.
+
+Lemma s2v_value ah qs : qs <> [] -> series2value ah (map Fin qs) = Fin (baf_value ah qs).
+Proof.
+  intros Hne. destruct ah as [b|].
+  - rewrite (s2v_side b qs Hne). unfold baf_value, direction. destruct qs as [|? [|? ?]]; reflexivity.
+  - destruct qs as [|a [|b t]]; [congruence | reflexivity |].
+    rewrite s2v_majority_many by (cbn; lia). reflexivity.
+Qed.
+
+Lemma baf_value_eq ah qs :
+  qs <> [] -> baf_value ah qs == median_value (map (mirror (direction ah qs)) qs).
+Proof.
+  intros Hne. destruct ah as [b|]; [destruct qs as [|? [|? ?]]; reflexivity|].
+  destruct qs as [|a [|b t]]; [congruence | | reflexivity].
+  unfold baf_value. cbn [map]. rewrite median_value_single. symmetry. apply mirror_single_majority.
+Qed.
+
+(* C18_baf: one or more hits, any above_half *)
+Lemma baf_any ah qs :
+  qs <> [] ->
   exists m, series2value ah (map Fin qs) = Fin m /\
     is_median m (map (mirror (direction ah qs)) qs) /\
     (ah = Some true -> 1 # 2 <= m) /\
     (ah = Some false -> m <= 1 # 2) /\
     (Forall (fun v => 0 <= v /\ v <= 1) qs -> 0 <= m /\ m <= 1).
 Proof.
-  intros Hl. exists (median_value (map (mirror (direction ah qs)) qs)).
+  intros Hq. exists (baf_value ah qs).
   assert (Hne : map (mirror (direction ah qs)) qs <> []).
-  { destruct qs; [cbn in Hl; lia | discriminate]. }
-  split; [apply s2v_many, Hl|]. split; [apply median_value_is_median, Hne|].
+  { destruct qs; [congruence | discriminate]. }
+  pose proof (baf_value_eq ah qs Hq) as E.
+  split; [apply s2v_value, Hq|].
+  split; [eapply is_median_eq; [exact E | apply median_value_is_median, Hne]|].
   split; [|split].
-  - intros ->. cbn [direction]. apply median_value_ge; [exact Hne|].
+  - intros ->. rewrite E. cbn [direction]. apply median_value_ge; [exact Hne|].
     apply Forall_forall. intros x Hx. apply in_map_iff in Hx as (v & <- & _). apply mirror_above_ge.
-  - intros ->. cbn [direction]. apply median_value_le; [exact Hne|].
+  - intros ->. rewrite E. cbn [direction]. apply median_value_le; [exact Hne|].
     apply Forall_forall. intros x Hx. apply in_map_iff in Hx as (v & <- & _). apply mirror_below_le.
-  - intros Hf. split.
+  - intros Hf. rewrite E. split.
     + apply median_value_ge; [exact Hne|]. apply Forall_forall. intros x Hx.
       apply in_map_iff in Hx as (v & <- & Hv). rewrite Forall_forall in Hf.
       destruct (Hf v Hv) as [A B]. apply (mirror_unit _ v A B).
@@ -114,49 +188,69 @@ Proof.
       destruct (Hf v Hv) as [A B]. apply (mirror_unit _ v A B).
 Qed.
 
-(* direction when unspecified: that of the majority, i.e. median > 1/2 *)
-Lemma direction_none qs : qs <> [] -> direction None qs = Qlt_bool (1 # 2) (median_value qs).
+(* the repaired clause on its own: with an explicit side a range holding exactly one
+   heterozygous variant gets that variant's frequency MIRRORED to the side *)
+Lemma baf_single_side b x :
+  exists m, series2value (Some b) [Fin x] = Fin m /\ m == mirror_spec b x /\
+    (b = true -> 1 # 2 <= m) /\ (b = false -> m <= 1 # 2).
 Proof.
-  intros Hne. unfold direction, majority_above. rewrite median_spec by exact Hne. reflexivity.
+  exists (mirror b x). split; [reflexivity|]. split; [apply mirror_eq|].
+  split; intros ->; [apply mirror_above_ge | apply mirror_below_le].
 Qed.
 
-(* a single hit is returned as it is: on the right side only if it already was *)
-Lemma baf_single_refuted :
-  exists x : Q, series2value (Some true) [Fin x] = Fin x /\ x < 1 # 2 /\ ~ mirror true x == x.
+(* ---- hits of a table whose frequency column was replaced row by row ----------- *)
+
+Lemma overlaps_set_freq rg r f : overlaps rg (set_freq r f) = overlaps rg r.
+Proof. destruct rg as [[c s] e]. reflexivity. Qed.
+
+Lemma hits_of_assign (f : vrow -> xq) rows rg :
+  hits_of (map (fun lr => (fst lr, set_freq (snd lr) (f (snd lr)))) rows) rg
+  = map (fun lr => f (snd lr)) (filter (fun lr => overlaps rg (snd lr)) rows).
 Proof.
-  exists (3 # 10). split; [reflexivity|]. split; [reflexivity|].
-  intros H. vm_compute in H. discriminate.
+  unfold hits_of. induction rows as [|x t IH]; [reflexivity|].
+  cbn [map filter snd]. rewrite overlaps_set_freq.
+  destruct (overlaps rg (snd x)); cbn [map snd]; rewrite IH; reflexivity.
 Qed.
 
-Lemma baf_single_majority x :
-  series2value None [Fin x] = Fin x /\ mirror (direction None [x]) x == x.
+Lemma hits_of_mirror_assign b rows rg :
+  hits_of (mirror_assign b rows) rg = map (mirror_x b) (hits_of rows rg).
 Proof.
-  split; [reflexivity|].
-  rewrite direction_none by discriminate.
-  assert (Hm : median_value [x] = x) by reflexivity. rewrite Hm.
-  destruct (Qlt_bool (1 # 2) x) eqn:E.
-  - apply Qlt_bool_iff in E. apply mirror_fix_above. lra.
-  - apply Qlt_bool_false in E. apply mirror_fix_below, E.
+  unfold mirror_assign.
+  rewrite (hits_of_assign (fun r => mirror_x b (g_freq (v_t r)))).
+  unfold hits_of. rewrite map_map. reflexivity.
 Qed.
 
-(* shape of the per-range vector *)
-Lemma baf_by_ranges_shape paired rows ranges ah :
+(* the hits of a range in a TumorBoost-ed table: the boosted value of each overlapping row's OWN
+   tumour and normal frequencies *)
+Lemma hits_of_boost_assign rows rg :
+  hits_of (boost_assign rows) rg
+  = map (fun lr => boost_row (snd lr)) (filter (fun lr => overlaps rg (snd lr)) rows).
+Proof. apply (hits_of_assign boost_row). Qed.
+
+(* the table the ranges are filled from *)
+Definition baf_source (paired : bool) (rows : list lrow) (boost : bool) : list lrow :=
+  if boost && paired then boost_assign (heterozygous rows) else heterozygous rows.
+
+(* shape of the per-range vector: one value per range, each from the hits of that range *)
+Lemma baf_by_ranges_shape paired rows ranges ah boost :
   ranges <> [] ->
-  baf_by_ranges paired rows ranges ah false =
-    Some (map (fun rg => series2value ah (hits_of (heterozygous rows) rg)) ranges).
+  baf_by_ranges paired rows ranges ah boost =
+    Some (map (fun rg => series2value ah (hits_of (baf_source paired rows boost) rg)) ranges).
 Proof.
-  intros Hr. unfold baf_by_ranges. rewrite andb_false_l.
-  destruct ranges; [congruence|]. reflexivity.
+  intros Hr. unfold baf_by_ranges, baf_source.
+  destruct ranges as [|r0 rt]; [congruence|].
+  destruct ah as [b|]; [|reflexivity].
+  f_equal. apply map_ext. intros rg. rewrite hits_of_mirror_assign. reflexivity.
 Qed.
 
 (* no variant at all: every range is missing *)
 Lemma baf_by_ranges_empty paired ranges ah boost :
   ranges <> [] -> baf_by_ranges paired [] ranges ah boost = Some (map (fun _ => XNaN) ranges).
 Proof.
-  intros Hr. unfold baf_by_ranges. destruct ranges as [|r t]; [congruence|].
-  assert (E : (if boost && paired then boost_assign (heterozygous []) else heterozygous []) = []).
-  { destruct (boost && paired); reflexivity. }
-  rewrite E. reflexivity.
+  intros Hr. rewrite baf_by_ranges_shape by exact Hr. f_equal.
+  assert (E : baf_source paired [] boost = []).
+  { unfold baf_source. destruct (boost && paired); reflexivity. }
+  rewrite E. apply map_ext. intros rg. apply s2v_none.
 Qed.
 
 Lemma hits_of_spec rows rg :
@@ -170,7 +264,7 @@ Proof.
   assert (E : filter (fun lr => overlaps rg (snd lr)) rows = []).
   { induction rows as [|a t IH]; [reflexivity|]. cbn. rewrite (H a (or_introl eq_refl)).
     apply IH. intros lr Hl. apply H. now right. }
-  rewrite E. reflexivity.
+  rewrite E. apply s2v_none.
 Qed.
 
 (* ---- TumorBoost ----------------------------------------------------------- *)
@@ -429,60 +523,173 @@ Proof.
   - cbn. discriminate.
 Qed.
 
-(* ---- TumorBoost assignment is aligned by label --------------------------------- *)
+(* ---- TumorBoost written back: every row keeps its own value --------------------- *)
 
-Definition pair_row (t n : Q) (start : Z) (zt zn : Q) : vrow :=
-  {| v_chrom := "chr1"; v_ckey := 0%Z; v_start := start; v_end := (start + 1)%Z; v_ref := "A"; v_alt := "G";
-     v_somatic := false;
-     v_t := {| g_zyg := zt; g_depth := 40%Z; g_count := 0%Z; g_freq := Fin t |};
-     v_n := Some {| g_zyg := zn; g_depth := 40%Z; g_count := 0%Z; g_freq := Fin n |} |}.
+(* everything of a row except the tumour frequency column *)
+Definition same_locus (a b : vrow) : Prop :=
+  v_chrom a = v_chrom b /\ v_start a = v_start b /\ v_end a = v_end b /\ v_ref a = v_ref b /\
+  v_alt a = v_alt b /\ v_somatic a = v_somatic b /\
+  g_depth (v_t a) = g_depth (v_t b) /\ g_count (v_t a) = g_count (v_t b) /\
+  option_map g_freq (v_n a) = option_map g_freq (v_n b).
 
-(* three records, the first one homozygous in the normal: the two kept rows carry labels 1 and 2,
-   the boosted vector is labelled 0 and 1 -- the row at 199 receives the value of the row at 299
-   and the row at 299 receives NaN *)
-Lemma boost_misaligned_refuted :
-  exists rows out lr r0,
-    load_het_core true None true rows = Ok out /\ In lr out /\ In r0 rows /\
-    v_start (snd lr) = v_start r0 /\ v_start r0 = 199%Z /\
-    g_freq (v_t (snd lr)) <> boost_row r0.
+Lemma same_site_locus a b : same_site a b -> same_locus a b.
+Proof. unfold same_site, same_locus. tauto. Qed.
+
+Lemma set_freq_same_locus r f : same_locus (set_freq r f) r.
+Proof. unfold same_locus, set_freq. cbn. repeat split. Qed.
+
+Lemma same_locus_trans a b c : same_locus a b -> same_locus b c -> same_locus a c.
 Proof.
-  exists [pair_row 1 1 99 1 1; pair_row (3 # 4) (1 # 2) 199 (1 # 2) (1 # 2);
-          pair_row (1 # 5) (2 # 5) 299 (1 # 2) (1 # 2)].
-  eexists. eexists. exists (pair_row (3 # 4) (1 # 2) 199 (1 # 2) (1 # 2)).
-  split; [vm_compute; reflexivity|]. split; [left; reflexivity|].
-  split; [right; left; reflexivity|]. split; [reflexivity|]. split; [reflexivity|].
-  vm_compute. discriminate.
+  unfold same_locus. intros (A1&A2&A3&A4&A5&A6&A7&A8&A9) (B1&B2&B3&B4&B5&B6&B7&B8&B9).
+  repeat split; congruence.
 Qed.
 
-(* when no row was dropped the labels are 0..n-1 and every row receives its own value *)
-Lemma nth_map_label (f : vrow -> xq) rows i k :
-  (k < length rows)%nat ->
-  nth k (map (fun lr => f (snd lr)) (label_from i rows)) XNaN = f (nth k rows hom_row).
+(* the boosted value depends on the two frequencies only *)
+Lemma boost_row_same_site a b : same_site a b -> boost_row a = boost_row b.
 Proof.
-  revert i k. induction rows as [|x t IH]; intros i k Hk; cbn in *; [lia|].
-  destruct k; [reflexivity|]. apply IH. lia.
+  unfold same_site, boost_row. intros (_&_&_&_&_&_&_&_&Ht&Hn).
+  destruct (v_n a) as [na|], (v_n b) as [nb|]; cbn in Hn; try discriminate; [|reflexivity].
+  injection Hn as Hn. now rewrite Ht, Hn.
 Qed.
 
-Lemma assign_aligned_contiguous values rows i :
-  (0 <= i)%Z ->
-  (forall k, (k < length rows)%nat ->
-      nth (Z.to_nat i + k) values XNaN = boost_row (nth k rows hom_row)) ->
-  assign_aligned (label_from i rows) values
-  = map (fun lr => (fst lr, set_freq (snd lr) (boost_row (snd lr)))) (label_from i rows).
+(* load_het_snps(tumor_boost=True) = load_het_snps(tumor_boost=False) with the frequency column
+   replaced, row by row, by the boosted value of that row *)
+Lemma load_het_core_boost paired zf rows out :
+  load_het_core paired zf true rows = Ok out ->
+  paired = true /\
+  exists out0, load_het_core paired zf false rows = Ok out0 /\
+    out = map (fun lr => (fst lr, set_freq (snd lr) (boost_row (snd lr)))) out0.
 Proof.
-  revert i. induction rows as [|x t IH]; intros i Hi Hv; cbn; [reflexivity|].
-  f_equal.
-  - assert (E : (i <? 0)%Z = false) by lia. rewrite E.
-    specialize (Hv 0%nat ltac:(cbn; lia)). rewrite Nat.add_0_r in Hv. cbn in Hv. now rewrite Hv.
-  - apply IH; [lia|]. intros k Hk.
-    specialize (Hv (S k) ltac:(cbn; lia)). cbn in Hv.
-    replace (Z.to_nat (i + 1) + k)%nat with (Z.to_nat i + S k)%nat by lia. exact Hv.
+  unfold load_het_core.
+  destruct (match effective_zfreq paired zf rows with
+            | Some f => if zfreq_ok f (qsub 1 f) then Ok (map (rezyg f (qsub 1 f)) rows) else Fail "AssertionError"
+            | None => Ok rows end) as [rows1|e]; [|discriminate].
+  destruct paired; [|discriminate].
+  intros H. injection H as <-. split; [reflexivity|]. eexists. split; reflexivity.
 Qed.
 
-Lemma boost_assign_contiguous rows :
-  boost_assign (label_from 0 rows)
-  = map (fun lr => (fst lr, set_freq (snd lr) (boost_row (snd lr)))) (label_from 0 rows).
+(* C18_attached_boost: whatever rows were dropped before, every kept row carries its own
+   coordinates, depth, count, normal frequency, and the TumorBoost value of ITS OWN frequencies *)
+Lemma load_het_boost_attached paired zf rows out lr :
+  load_het_core paired zf true rows = Ok out -> In lr out ->
+  exists r, In r rows /\ same_locus (snd lr) r /\ g_freq (v_t (snd lr)) = boost_row r.
 Proof.
-  unfold boost_assign. apply assign_aligned_contiguous; [lia|].
-  intros k Hk. cbn. apply (nth_map_label boost_row), Hk.
+  intros H Hin. destruct (load_het_core_boost _ _ _ _ H) as (_ & out0 & H0 & ->).
+  apply in_map_iff in Hin as (lr0 & <- & Hin0).
+  destruct (load_het_attached _ _ _ _ _ H0 Hin0) as (r & Hr & Hs).
+  exists r. split; [exact Hr|]. cbn [snd]. split.
+  - eapply same_locus_trans; [apply set_freq_same_locus | apply same_site_locus, Hs].
+  - cbn. apply boost_row_same_site, Hs.
 Qed.
+
+(* the rows kept and their order do not depend on tumor_boost *)
+Lemma load_het_boost_same_rows paired zf rows out :
+  load_het_core paired zf true rows = Ok out ->
+  exists out0, load_het_core paired zf false rows = Ok out0 /\
+    map fst out = map fst out0 /\ Forall2 (fun a b => same_locus (snd a) (snd b)) out out0.
+Proof.
+  intros H. destruct (load_het_core_boost _ _ _ _ H) as (_ & out0 & H0 & ->).
+  exists out0. split; [exact H0|]. split.
+  - rewrite map_map. reflexivity.
+  - clear. induction out0 as [|x t IH]; constructor; [apply set_freq_same_locus | exact IH].
+Qed.
+
+(* ---- the baf column of do_call ------------------------------------------------------------- *)
+
+Lemma baf_source_plain paired rows : baf_source paired rows false = heterozygous rows.
+Proof. reflexivity. Qed.
+
+Definition purity_rescales (purity : option Q) : option Q :=
+  match purity with
+  | Some p => if negb (Qeq_bool p 0) && Qlt_bool p 1 then Some p else None
+  | None => None
+  end.
+
+(* do_call(segments, variants, purity): one baf per segment = baf_by_ranges with the defaults
+   (majority direction, no TumorBoost), rescaled for purity exactly when 0 <> purity < 1 *)
+Lemma call_baf_spec paired rows ranges purity :
+  rows <> [] -> ranges <> [] ->
+  call_baf paired rows ranges purity =
+    Some (map (fun rg =>
+                 let b := series2value None (hits_of (heterozygous rows) rg) in
+                 match purity_rescales purity with Some p => rescale_x p b | None => b end) ranges).
+Proof.
+  intros Hrows Hr. unfold call_baf. destruct rows as [|r0 rt]; [congruence|].
+  rewrite (baf_by_ranges_shape paired (r0 :: rt) ranges None false Hr), baf_source_plain.
+  unfold purity_rescales. destruct purity as [p|].
+  - destruct (negb (Qeq_bool p 0) && Qlt_bool p 1); [|reflexivity]. now rewrite map_map.
+  - reflexivity.
+Qed.
+
+Lemma purity_rescales_some p : ~ p == 0 -> p < 1 -> purity_rescales (Some p) = Some p.
+Proof.
+  intros H0 H1. unfold purity_rescales.
+  assert (E0 : Qeq_bool p 0 = false).
+  { destruct (Qeq_bool p 0) eqn:E; [|reflexivity]. apply Qeq_bool_iff in E. contradiction. }
+  assert (E1 : Qlt_bool p 1 = true) by now apply Qlt_bool_iff.
+  now rewrite E0, E1.
+Qed.
+
+Lemma purity_rescales_pure p : 1 <= p -> purity_rescales (Some p) = None.
+Proof.
+  intros H. unfold purity_rescales.
+  assert (E1 : Qlt_bool p 1 = false) by now apply Qlt_bool_false.
+  rewrite E1, andb_false_r. reflexivity.
+Qed.
+
+(* a missing BAF stays missing, a number goes through the purity formula *)
+Lemma rescale_x_cases p v :
+  match v with
+  | Fin q => exists q', rescale_x p v = Fin q' /\ q' == rescale_spec p q
+  | _ => rescale_x p v = v
+  end.
+Proof.
+  destruct v as [q| |]; try reflexivity.
+  eexists. split; [reflexivity | apply rescale_formula].
+Qed.
+
+(* no variants at all: do_call adds no baf column *)
+Lemma call_baf_no_variants paired ranges purity : call_baf paired [] ranges purity = None.
+Proof. reflexivity. Qed.
+
+(* ---- het_frac_by_ranges ------------------------------------------------------------------------ *)
+
+Lemma count_true_bounds l : (0 <= count_true l <= Z.of_nat (length l))%Z.
+Proof.
+  unfold count_true. split; [lia|]. apply inj_le.
+  induction l as [|b t IH]; cbn; [lia|]. destruct b; cbn; lia.
+Qed.
+
+(* the fraction of heterozygous variants among those overlapping the range: a number in [0,1] *)
+Lemma het_frac_value_spec hits :
+  hits <> [] ->
+  exists q, het_frac_value hits = Fin q /\
+    q == inject_Z (count_true hits) / inject_Z (Z.of_nat (length hits)) /\ 0 <= q /\ q <= 1.
+Proof.
+  intros Hne. destruct hits as [|b t]; [congruence|].
+  set (l := b :: t). exists (qdiv (inject_Z (count_true l)) (inject_Z (Z.of_nat (length l)))). split; [reflexivity|].
+  pose proof (count_true_bounds l) as [H0 H1].
+  assert (Hlen : (0 < Z.of_nat (length l))%Z) by (cbn [l length]; lia).
+  assert (Hd : 0 < inject_Z (Z.of_nat (length l))) by (change 0 with (inject_Z 0); rewrite <- Zlt_Qlt; exact Hlen).
+  remember (het_frac_value l) as v eqn:Ev. unfold het_frac_value in Ev. cbn [l] in Ev. subst v.
+  fold l. rewrite qdiv_eq. split; [reflexivity|]. split.
+  - apply Qle_shift_div_l; [exact Hd|]. rewrite Qmult_0_l. change 0 with (inject_Z 0). rewrite <- Zle_Qle. exact H0.
+  - apply Qle_shift_div_r; [exact Hd|]. rewrite Qmult_1_l. rewrite <- Zle_Qle. exact H1.
+Qed.
+
+Lemma het_frac_value_none : het_frac_value [] = XNaN.
+Proof. reflexivity. Qed.
+
+(* for a table with valid zygosities the indicator is "germline-heterozygous" *)
+Lemma het_flags_germline rows rg :
+  Forall (fun lr => row_valid (snd lr)) rows ->
+  het_flags rows rg = map (fun lr => germline_het (snd lr)) (filter (fun lr => overlaps rg (snd lr)) rows).
+Proof.
+  intros Hv. unfold het_flags. apply map_ext_in. intros lr Hin. apply filter_In in Hin as [Hin _].
+  rewrite Forall_forall in Hv. apply het_pointwise_unpaired, Hv, Hin.
+Qed.
+
+Lemma het_frac_shape rows ranges :
+  ranges <> [] ->
+  het_frac_by_ranges rows ranges = Some (map (fun rg => het_frac_value (het_flags rows rg)) ranges).
+Proof. intros H. unfold het_frac_by_ranges. destruct ranges; [congruence | reflexivity]. Qed.
